@@ -2542,9 +2542,9 @@ class NetCDFWrite(IOWrite):
                     continue
 
                 if np.size(value) == 1:
-                    value = np.array(value, copy=False).item()
+                    value = np.asarray(value).item()
                 else:
-                    value = np.array(value, copy=False).tolist()
+                    value = np.asarray(value).tolist()
 
                 parameters[term] = value
 
